@@ -114,6 +114,74 @@ def gen_ns_tight(rng):
     return {"n": n, "arcs": arcs, "supplies": b, "s": 0, "t": n - 1, "labels": "int"}
 
 
+def gen_antiparallel(rng):
+    """middle nodes joined by anti-parallel arc pairs with small capacities: augmentations have to cancel part of the flow on
+    the opposite arc"""
+    k = rng.randint(2, 5)
+    n = k + 2
+    arcs = {}
+    mids = list(range(1, k + 1))
+    for u in mids:
+        for v in mids:
+            if u < v and rng.random() < 0.7:
+                arcs[(u, v)] = rng.randint(1, 3)
+                arcs[(v, u)] = rng.randint(1, 3)
+    for u in mids:
+        if rng.random() < 0.6:
+            arcs[(0, u)] = rng.randint(1, 4)
+        if rng.random() < 0.6:
+            arcs[(u, n - 1)] = rng.randint(1, 4)
+    items = [[u, v, c, 0] for (u, v), c in arcs.items()]
+    rng.shuffle(items)
+    return {"n": n, "arcs": items, "s": 0, "t": n - 1, "labels": "int", "all_keys": False}
+
+
+def gen_cancel_template(rng):
+    """a short s-b-a-t path that is saturated first, and a longer s-c-a-b-d-t path that must push against b->a through the
+    anti-parallel arc a->b; capacities randomised around the values that make the second push larger than the flow to cancel"""
+    f, g = rng.randint(1, 2), rng.randint(1, 2)
+    big = f + g + rng.randint(-1, 1)
+    arcs = [[0, 1, f + rng.randint(0, 1), 0], [1, 2, f + rng.randint(0, 1), 0], [2, 5, f + rng.randint(0, 1), 0],
+            [0, 3, max(1, big), 0], [3, 2, max(1, big + rng.randint(0, 1)), 0], [2, 1, g, 0], [1, 4, max(1, big), 0], [4, 5, max(1, big + rng.randint(0, 1)), 0]]
+    n = 6
+    for _ in range(rng.randint(0, 2)):           # noise arcs
+        u, v = rng.sample(range(n), 2)
+        if v != 0 and u != 5 and not any(a[0] == u and a[1] == v for a in arcs):
+            arcs.append([u, v, rng.randint(1, 2), 0])
+    perm = list(range(1, 5))
+    rng.shuffle(perm)
+    relabel = {0: 0, 5: 5, **{i + 1: perm[i] for i in range(4)}}
+    arcs = [[relabel[u], relabel[v], c, 0] for u, v, c, _ in arcs]
+    rng.shuffle(arcs)
+    return {"n": n, "arcs": arcs, "s": 0, "t": 5, "labels": "int", "all_keys": False}
+
+
+def run_maxflow_bulk(case):
+    """Coverage-directed generation for max_flow: keep every execution in which an augmentation cancels only part of the flow
+    on the opposite arc (rare), plus a sample."""
+    from solvor import _verif
+    rng = random.Random(case["seed"])
+    kept, cov = [], {"instances": 0, "partial_cancellation": 0, "full_cancellation": 0, "sampled": 0}
+    for _ in range(case["count"]):
+        c = gen_cancel_template(rng) if rng.random() < 0.25 else gen_antiparallel(rng)
+        if not c["arcs"]:
+            continue
+        _verif.start()
+        tr = run_maxflow(c)
+        events, _ = _verif.stop()
+        aug = [e for e in events if e.get("e") == "maxflow_augment"]
+        part = any(e["partial_cancel"] for e in aug)
+        full = any(e["full_cancel"] for e in aug)
+        cov["instances"] += 1
+        cov["partial_cancellation"] += part
+        cov["full_cancellation"] += full
+        if part or (full and rng.random() < 0.05) or rng.random() < 0.005:
+            cov["sampled"] += 1
+            tr["coverage"] = "PartialCancellation" if part else "sample"
+            kept.append(tr)
+    return {"kept": kept, "cov": cov}
+
+
 def run_ns_bulk(case):
     """Coverage-directed generation (DESIGN §2.2): run many small tight instances through network_simplex with the pivot
     hook on and keep the executions that take rarely exercised spec actions (an arc entering from its upper bound with a
